@@ -443,6 +443,16 @@ func (w *World) CaseExpr(variant string) string {
 	return fmt.Sprintf("sched_matches %s %s %s %s %s", variant, coqBool(w.autoApp), coqList(gs), coqList(w.snaps), w.obsTerm())
 }
 
+// EnvExpr: the trace the model takes for this schedule satisfies the hypotheses of C05
+// (distinct positive sequence numbers; the peer answers once and only after the frame reached the transport).
+func (w *World) EnvExpr(variant string) string {
+	gs := make([]string, len(w.groups))
+	for i, g := range w.groups {
+		gs[i] = coqList(g)
+	}
+	return fmt.Sprintf("sched_env_ok %s %s %s", variant, coqBool(w.autoApp), coqList(gs))
+}
+
 // Script is the human-readable replayable form of the schedule.
 func (w *World) Script() string {
 	var parts []string
